@@ -41,7 +41,10 @@ def valid_props(rng, cmd, names):
         if rng.random() < 0.5:
             p['graceful_timeout'] = rng.choice([0, 0.2])
     elif cmd == 'get':
-        p['keys'] = ['numprocesses', 'graceful_timeout']
+        p['keys'] = rng.choice([['numprocesses', 'graceful_timeout'],
+                                ['stdout_stream_conf'],
+                                ['numprocesses', 'stdout_stream_conf'],
+                                ['hooks'], ['nosuchkey']])
     elif cmd == 'reload':
         p.update(rng.choice([{}, {'sequential': True}, {'graceful': False}]))
     elif cmd in ('numwatchers', 'globaloptions', 'listsockets',
@@ -539,6 +542,9 @@ class C06(Prop):
         for wc in cfg['watchers']:
             if rng.random() < 0.3:
                 wc['hooks'] = gen.gen_hooks(rng, bad_p=0.6)
+            if rng.random() < 0.25:
+                # options / get replies that cannot be serialised
+                wc['stream_objects'] = True
         if rng.random() < 0.3:
             s = rng.randrange(1, 10)
             cfg['exec_fail'] = {str(s + i): 2 for i in range(rng.choice(
